@@ -6,6 +6,7 @@ import (
 	"sort"
 	"strconv"
 	"strings"
+	"sync/atomic"
 
 	"pgregory.net/rapid"
 )
@@ -86,11 +87,18 @@ type pg struct {
 	t    *rapid.T
 	used map[string]bool
 	max  int
+	// header > 0 while an if / for / switch / range header expression is being generated: a
+	// composite literal of an instantiated generic type is not produced there (known finding
+	// KF1: gofmt strips the parentheses that protect it); Excluded counts the avoided draws.
+	header int
 }
 
+// ExcludedKnown counts, process-wide, how often Program steered away from the class of KF1.
+var ExcludedKnown int64
+
 func (g *pg) pick(label string, xs []string) string { return rapid.SampledFrom(xs).Draw(g.t, label) }
-func (g *pg) n(label string, lo, hi int) int         { return rapid.IntRange(lo, hi).Draw(g.t, label) }
-func (g *pg) flip(label string) bool                 { return rapid.Bool().Draw(g.t, label) }
+func (g *pg) n(label string, lo, hi int) int        { return rapid.IntRange(lo, hi).Draw(g.t, label) }
+func (g *pg) flip(label string) bool                { return rapid.Bool().Draw(g.t, label) }
 
 // arity is biased to small values but reaches 12.
 func (g *pg) arity(label string) int {
@@ -450,6 +458,10 @@ func (g *pg) compositeLit(d int) string {
 		t = "[...]" + g.typ(0)
 	case 3:
 		t = g.pick("cltype", []string{"T", "Node", "Pair[int, string]"})
+		if g.header > 0 && strings.Contains(t, "[") {
+			atomic.AddInt64(&ExcludedKnown, 1)
+			t = "T"
+		}
 		if g.flip("qualtype") {
 			t = g.qual(true)
 		}
@@ -495,6 +507,8 @@ func (g *pg) compositeLit(d int) string {
 // hdr returns an expression usable in an if/for/switch header: a composite
 // literal there must be parenthesised.
 func (g *pg) hdr(d int) string {
+	g.header++
+	defer func() { g.header-- }()
 	e := g.expr(d, 0)
 	if strings.Contains(e, "{") {
 		return "(" + e + ")"
@@ -541,6 +555,8 @@ func (g *pg) simpleStmt(d int) string {
 }
 
 func (g *pg) hdrSimple(d int) string {
+	g.header++
+	defer func() { g.header-- }()
 	s := g.simpleStmt(d)
 	if strings.Contains(s, "{") {
 		return g.pick("lhs", vars) + " := " + g.pick("var", vars)
